@@ -23,6 +23,9 @@ CHECKS = {
  'C06': dict(technique='deterministic simulation: configuration swarm over knobs, code paths, seeded GPU thread orders, lanes and storage reuse with poison faults',
    text='Each seeded case runs as several configuration pairs that must agree bit-for-bit on port-level results: memory reuse (with dead storage poisoned at level boundaries and several batches on one object), fork stripping, CPU vs mock-GPU path under seeded thread orders and the repository launcher (assign/eval/capture/state-transfer kernels, abuf), lane count and lane position, propagation restricted to k lanes (with a lane-isolation monitor), delay-dataset selection modes; LogicSim likewise. One genuine defect (F4) is recorded as a known finding.',
    ref='5.3', note='Exact 0/1 stimuli; sd=0; pure-Python fallback; the purely configurational pairs (dataset selection, lane position on LogicSim) contain no schedule or fault and are counted as fault-free differential.'),
+ 'C16': dict(technique='deterministic simulation: fault injection through the code\'s own inject_cb seam, event-history checks and refinement against a cut-circuit reference',
+   text='The harness callback is monitor and fault injector: seeded fault plans overwrite signals in chosen lanes and cycles (c_prop and cycle(k)); the recorded event history is checked for exactly-once, dependency order, identity and view semantics, and per cycle and lane group the results and every value any callback saw must equal the callback-free simulation of the cut circuit in which each injected line is a fresh primary input. Untouched callbacks must leave s[1] and c bit-identical in all three logics.',
+   ref='5.6', note='Oracle is the same simulator class without callback on a rebuilt cut circuit (no second multi-valued algebra); lanes are grouped by injection set; pure-Python fallback.'),
  'C13': dict(technique='deterministic simulation: capacity faults paired with unlimited runs, accumulation under seeded GPU thread orders and real-thread interleavings, capture read-out of recorded state',
    text='Overflow indicator: capacity-faulted run vs paired capacity-64 run, every output whose indicator is clear must carry exactly the unlimited waveform. Accumulation: abuf must equal the weighted rise/fall count of the waveform snapshots taken when each op finishes, cumulatively over reuse batches, on the CPU path, under seeded mock-GPU thread orders, under fine-grained interleaving (where a non-atomic update loses counts) and for the first k lanes. Capture summary: s[3..8], s[10] against what the stored output waveform encodes for capture times selected on/around actual transitions.',
    ref='5.5', note='sd=0; "unlimited" = 64 entries (cases where that overflows are skipped and counted); pure-Python fallback.'),
